@@ -46,7 +46,7 @@ pub fn draw_cfg(rng: &mut Rng, only: Option<&str>, lane: Lane) -> Cfg {
     let droppy = rng.chance(4, 5);
     let (n, m) = *rng.pick(&chan::cfgs_for(kind, droppy));
     let mut streams = 1 + rng.below(m.min(3) as u64) as usize;
-    let churn = kind.is_multi() && m >= 2 && rng.chance(1, 3);
+    let churn = kind.is_multi() && m >= 2 && rng.chance(1, 3) && !cfg!(miri);      // (not under Miri: the fan-out reading the listener list while it is rewritten trips Tree Borrows on the unchanged tree, DESIGN 6.5)
     if churn { streams = streams.min(m - 1) }
     let mut nprod = 1 + rng.below(3) as usize;
     let mut per_prod = if lane == Lane::Ser { 1 + rng.below(4) as u32 } else { 20 + rng.below(600) as u32 };
